@@ -321,7 +321,11 @@ class Built:
         ins0, outs0 = list(ins), list(outs)
         with seams.quiet():
             obj = k.build(parent, (self.desc.get('inst_names') or {}).get(str(nid), 'u%d' % nid), ins, outs, n['p'])
-        if [id(w) for w in ins] != [id(w) for w in ins0] or [id(w) for w in outs] != [id(w) for w in outs0]:
+        ins_after, outs_after = [id(w) for w in ins], [id(w) for w in outs]
+        # ... and the caller is free to reuse its lists for something else afterwards
+        ins.clear()
+        outs.clear()
+        if ins_after != [id(w) for w in ins0] or outs_after != [id(w) for w in outs0]:
             # the lists belong to the caller, who goes on using them (e.g. to wire the next block)
             raise Violation('caller-list-mutated', 'fn:%s:caller-list-reordered' % n['kind'], 0,
                             'constructor of %s changed the list of wires it was given' % n['kind'])
@@ -588,3 +592,32 @@ class Twin:
     def values(self):
         bad = update_poison(self.b)
         return {r: (None if (bad and r[0] == 'n' and parse_ref(r)[1] in bad) else w.get()) for r, w in self.b.wires.items()}
+
+
+def underscore_names(desc, rng):
+    """instance and group names from a tiny pool of names with underscores ('a', 'a_b', 'b_a', ...), unique per parent:
+    different blocks then have paths whose underscore-joined forms coincide ('a' / 'b' vs a sibling 'a_b')"""
+    pool = ['a', 'b', 'a_b', 'b_a', 'a_a', 'b_b', 'a_b_a', 'b_a_b', 'ab', 'a_ab']
+    used = {}                     # parent path -> names taken
+    gmap = {}                     # old group path tuple -> new name
+
+    def take(parent):
+        u = used.setdefault(parent, set())
+        c = [x for x in pool if x not in u]
+        nm = rng.choice(c) if c else 'n%d' % len(u)
+        u.add(nm)
+        return nm
+    paths = sorted({tuple(n['grp'][:k]) for n in desc['nodes'] for k in range(1, len(n['grp']) + 1)}, key=lambda p: (len(p), p))
+    newpath = {(): ()}
+    for p in paths:
+        parent_new = newpath[p[:-1]]
+        newpath[p] = parent_new + (take(parent_new),)
+    inst = dict(desc.get('inst_names') or {})
+    for n in desc['nodes']:
+        n['grp'] = list(newpath[tuple(n['grp'])])
+        inst[str(n['id'])] = take(tuple(n['grp']))
+    desc['inst_names'] = inst
+    gd = desc.get('group_driver')
+    if gd:
+        desc['group_driver'] = {'/'.join(newpath[tuple(k.split('/'))]): v for k, v in gd.items()}
+    return desc
